@@ -151,9 +151,38 @@ struct Driver {
     tombstones_made: u64,
     calls: u64,
     reads: u64,
+    /// how many very large bulk calls (hundreds to ~1600 items) this sequence may still make
+    big_left: u32,
+    big_items: u64,
 }
 
+/// Batch sizes around the limits bulk implementations chunk at.
+const BIG_BATCHES: [usize; 14] = [255, 256, 257, 499, 500, 511, 512, 513, 999, 1000, 1001, 1023, 1024, 1025];
+
 impl Driver {
+    /// Size of the next bulk call: usually 0..4, at most `big_left` times per sequence a very large one.
+    fn bulk_size(&mut self) -> usize {
+        if self.big_left > 0 && self.rng.gen_bool(0.3) {
+            self.big_left -= 1;
+            if self.rng.gen_bool(0.7) {
+                *BIG_BATCHES.choose(&mut self.rng).unwrap()
+            } else {
+                self.rng.gen_range(300..1_600)
+            }
+        } else {
+            self.rng.gen_range(0..5)
+        }
+    }
+
+    /// Ids of a very large batch: a dense block (small payloads keep the sequence cheap).
+    fn block_ids(&mut self, n: usize) -> Vec<u64> {
+        let base: u64 = if self.rng.gen_bool(0.5) { self.rng.gen_range(0..1_000) } else { self.rng.gen_range(0..u64::MAX - 4_000) };
+        let ids: Vec<u64> = (0..n as u64).map(|j| base + j).collect();
+        self.ids.extend(ids.iter().copied());
+        self.big_items += n as u64;
+        ids
+    }
+
     fn gen_ts(&mut self) -> HLCTimestamp {
         let secs = match self.rng.gen_range(0..6) {
             0 => 0,
@@ -208,16 +237,27 @@ impl Driver {
                     self.model.entry(ks.into()).or_default().insert(id, (ts, Some(d)));
                 },
                 3 | 4 => {
-                    let n = self.rng.gen_range(0..5);
+                    let n = self.bulk_size();
                     let mut docs = Vec::new();
-                    for _ in 0..n {
+                    if n >= 200 {
+                        for id in self.block_ids(n) {
+                            let ts = self.gen_ts();
+                            let d: Vec<u8> = (0..self.rng.gen_range(0..3u8)).map(|b| b ^ id as u8).collect();
+                            docs.push(Document::new(id, ts, d));
+                        }
+                    }
+                    for _ in 0..(if n >= 200 { 0 } else { n }) {
                         // duplicates inside one bulk call happen (model: applied in iteration order)
                         let id = if !docs.is_empty() && self.rng.gen_bool(0.2) { docs.choose(&mut self.rng).map(|d: &Document| d.id()).unwrap() } else { self.gen_id() };
                         let (ts, d) = (self.gen_ts(), self.gen_payload());
                         docs.push(Document::new(id, ts, d));
                     }
                     call = "multi_put";
-                    self.trace.push(json!({"multi_put": [ks, docs.iter().map(|d| json!([d.id(), ts_json(d.last_updated()), d.data().len()])).collect::<Vec<_>>()]}));
+                    if docs.len() >= 200 {
+                        self.trace.push(json!({"multi_put": [ks, {"items": docs.len(), "first_id": docs[0].id(), "ids": "first_id .. first_id+items"}]}));
+                    } else {
+                        self.trace.push(json!({"multi_put": [ks, docs.iter().map(|d| json!([d.id(), ts_json(d.last_updated()), d.data().len()])).collect::<Vec<_>>()]}));
+                    }
                     st.multi_put(ks, docs.clone().into_iter()).await.map_err(|e| err(call, e.to_string()))?;
                     for d in docs {
                         self.model.entry(ks.into()).or_default().insert(d.id(), (d.last_updated(), Some(d.data().to_vec())));
@@ -232,10 +272,18 @@ impl Driver {
                     self.tombstones_made += 1;
                 },
                 7 | 8 => {
-                    let n = self.rng.gen_range(0..5);
-                    let docs: Vec<DocumentMetadata> = (0..n).map(|_| DocumentMetadata::new(self.gen_id(), self.gen_ts())).collect();
+                    let n = self.bulk_size();
+                    let docs: Vec<DocumentMetadata> = if n >= 200 {
+                        self.block_ids(n).into_iter().map(|id| DocumentMetadata::new(id, self.gen_ts())).collect()
+                    } else {
+                        (0..n).map(|_| DocumentMetadata::new(self.gen_id(), self.gen_ts())).collect()
+                    };
                     call = "mark_many_as_tombstone";
-                    self.trace.push(json!({"mark_many_as_tombstone": [ks, docs.iter().map(|d| json!([d.id, ts_json(d.last_updated)])).collect::<Vec<_>>()]}));
+                    if docs.len() >= 200 {
+                        self.trace.push(json!({"mark_many_as_tombstone": [ks, {"items": docs.len(), "first_id": docs[0].id, "ids": "first_id .. first_id+items"}]}));
+                    } else {
+                        self.trace.push(json!({"mark_many_as_tombstone": [ks, docs.iter().map(|d| json!([d.id, ts_json(d.last_updated)])).collect::<Vec<_>>()]}));
+                    }
                     st.mark_many_as_tombstone(ks, docs.clone().into_iter()).await.map_err(|e| err(call, e.to_string()))?;
                     for d in docs {
                         self.model.entry(ks.into()).or_default().insert(d.id, (d.last_updated, None));
@@ -247,7 +295,11 @@ impl Driver {
                     let tomb: Vec<u64> = self.model.get(ks).map(|e| e.iter().filter(|(_, v)| v.1.is_none()).map(|(k, _)| *k).collect()).unwrap_or_default();
                     let pick: Vec<u64> = tomb.into_iter().filter(|_| self.rng.gen_bool(0.6)).collect();
                     call = "remove_tombstones";
-                    self.trace.push(json!({"remove_tombstones": [ks, pick]}));
+                    if pick.len() >= 200 {
+                        self.trace.push(json!({"remove_tombstones": [ks, {"items": pick.len()}]}));
+                    } else {
+                        self.trace.push(json!({"remove_tombstones": [ks, pick]}));
+                    }
                     st.remove_tombstones(ks, pick.clone().into_iter()).await.map_err(|e| err(call, e.to_string()))?;
                     for k in pick {
                         self.model.get_mut(ks).unwrap().remove(&k);
@@ -302,6 +354,9 @@ async fn c17_sequence(backend: Backend, seed: u64, i: u64, root: &Path) -> CaseO
         tombstones_made: 0,
         calls: 0,
         reads: 0,
+        // one sequence in eight makes one very large bulk call
+        big_left: if i % 8 == 2 { 1 } else { 0 },
+        big_items: 0,
     };
     let segments = if matches!(backend, Backend::SqliteFile | Backend::Lmdb) { d.rng.gen_range(2..=4) } else { 1 };
     let total_steps = d.rng.gen_range(20..=60);
@@ -396,6 +451,7 @@ async fn c17_sequence(backend: Backend, seed: u64, i: u64, root: &Path) -> CaseO
     out.count("storage_calls", d.calls);
     out.count("oracle_reads", d.reads);
     out.count("tombstones_written", d.tombstones_made);
+    out.count("items_in_very_large_bulk_calls", d.big_items);
     out.count("reopens", reopens);
     out.counts.push((
         match backend {
@@ -433,7 +489,7 @@ pub fn c17(args: &Args) {
     let mut report = Report::new(
         args,
         "E6-storage",
-        "generated sequences of 20..60 Storage calls allowed by the contract (put, put_with_ctx, multi_put incl. duplicate ids, mark_as_tombstone also before any put, mark_many_as_tombstone, remove_tombstones only on tombstoned ids) over 3 keyspaces (unicode, spaces), ids from {0,1,2,2^31,2^63-1,2^63,2^64-1} + random u64, payloads 0 B..256 KiB, arbitrary stamps (seconds 0..2^32-1, all fractional/counter/node edges) against MemStore, SQLite (file with 1-3 close/reopen cycles, in-memory) and LMDB (1-3 close/reopen cycles). After EVERY call: get of every id used so far, multi_get (order free), iter_metadata (as a set) for all keyspaces (isolation), keyspace list (must contain every keyspace holding entries, must not contain a never-mentioned name) compared with a map model. Non-trivial = sequence wrote a tombstone and (for persistent backends) was reopened; distinct = distinct call traces.",
+        "generated sequences of 20..60 Storage calls allowed by the contract (put, put_with_ctx, multi_put incl. duplicate ids and - one sequence in eight - a bulk call of 255..1600 items around the 256/500/512/1000/1024 boundaries, mark_as_tombstone also before any put, mark_many_as_tombstone, remove_tombstones only on tombstoned ids) over 3 keyspaces (unicode, spaces), ids from {0,1,2,2^31,2^63-1,2^63,2^64-1} + random u64, payloads 0 B..256 KiB, arbitrary stamps (seconds 0..2^32-1, all fractional/counter/node edges) against MemStore, SQLite (file with 1-3 close/reopen cycles, in-memory) and LMDB (1-3 close/reopen cycles). After EVERY call: get of every id used so far, multi_get (order free), iter_metadata (as a set) for all keyspaces (isolation), keyspace list (must contain every keyspace holding entries, must not contain a never-mentioned name) compared with a map model. Non-trivial = sequence wrote a tombstone and (for persistent backends) was reopened; distinct = distinct call traces.",
     );
     let root = scratch_root();
     if let Some(path) = &args.replay {
@@ -566,6 +622,7 @@ pub fn c17(args: &Args) {
         report.floor("reopens", 100.min(per_backend));
     }
     report.floor("tombstones_written", 1000.min(per_backend * 3));
+    report.floor("items_in_very_large_bulk_calls", 2_000.min(per_backend * 10));
     report.finish(args);
 }
 
